@@ -36,6 +36,9 @@ pub struct GenOpts {
     pub fallible_chance: u32,
     /// also generate the Clone-only location type
     pub clone_only_loc: bool,
+    /// number of small non-recursive helper nonterminals spliced into the
+    /// alternatives of the others (inlining candidates, C14)
+    pub helpers: usize,
 }
 
 impl GenOpts {
@@ -65,6 +68,7 @@ impl GenOpts {
             min_macros: 0,
             fallible_chance: 40,
             clone_only_loc: false,
+            helpers: 0,
         }
     }
     pub fn plain() -> GenOpts {
@@ -93,6 +97,7 @@ impl GenOpts {
             min_macros: 0,
             fallible_chance: 0,
             clone_only_loc: false,
+            helpers: 0,
         }
     }
 }
@@ -603,7 +608,7 @@ pub fn gen_full(t: &mut Tape, o: &GenOpts) -> GSpec {
         };
         modes.push(m);
     }
-    let spec = GSpec { lexer, terms, nts: vec![], declare_error: true };
+    let spec = GSpec { lexer, terms, nts: vec![], declare_error: true, cx_name: "cx".into(), lt_name: "cx".into() };
     let mut g = G { t, o, spec, modes, n_nts, macros: vec![], var: 0 };
     // placeholders for the ordinary nonterminals so indices are stable
     for i in 0..n_nts {
@@ -666,7 +671,43 @@ pub fn gen_full(t: &mut Tape, o: &GenOpts) -> GSpec {
         g.spec.nts[ni].alts = alts;
         g.spec.nts[ni].ty = ty;
     }
-    // DefaultOne needs a String-typed nonterminal other than through itself: N0 always is.
+    // helper nonterminals (small, non-recursive, user actions) spliced into others
+    let n_helpers = if g.o.helpers > 0 { 1 + g.t.below(g.o.helpers) } else { 0 };
+    let mut helper_idx: Vec<usize> = vec![];
+    for h in 0..n_helpers {
+        let idx = g.spec.nts.len();
+        let nterms = g.spec.terms.len();
+        let mut alts = vec![];
+        let n_alts = 1 + g.t.below(3);
+        for ai in 0..n_alts {
+            let kinds: Vec<SymKind> = match g.t.weighted(&[60, 40, 24, if helper_idx.is_empty() { 0 } else { 40 }]) {
+                1 => vec![SymKind::T((h + ai) % nterms), SymKind::T(g.t.below(nterms))],
+                2 => vec![],
+                3 => vec![SymKind::T((h + ai + 1) % nterms), SymKind::N(helper_idx[g.t.below(helper_idx.len())])],
+                _ => vec![SymKind::T((h + ai + g.t.below(2)) % nterms)],
+            };
+            let fallible = g.o.fallible && g.t.chance(g.o.fallible_chance);
+            alts.push(AltSpec::new(kinds.into_iter().map(SymSpec::plain).collect(), Act::User { fallible, style: Style::Angle }));
+        }
+        g.spec.nts.push(NtSpec { name: format!("H{idx}"), public: false, inline: false, ty: Some(Ty::Str), alts, cfg: vec![], params: vec![] });
+        helper_idx.push(idx);
+    }
+    for &hi in &helper_idx {
+        let sites = 1 + g.t.below(3);
+        for _ in 0..sites {
+            let ni = g.t.below(n_nts);
+            if g.modes[ni] != Mode::UserStr || g.spec.nts[ni].alts.is_empty() {
+                continue;
+            }
+            let ai = g.t.below(g.spec.nts[ni].alts.len().min(2));
+            let alt = &mut g.spec.nts[ni].alts[ai];
+            if alt.syms.len() >= 6 {
+                continue;
+            }
+            let pos = g.t.below(alt.syms.len() + 1);
+            alt.syms.insert(pos, SymSpec::plain(SymKind::N(hi)));
+        }
+    }
     // pub / inline flags
     let reach = reach_matrix(&g.spec);
     for ni in 1..n_nts {
@@ -841,7 +882,7 @@ pub fn gen_cfg(t: &mut Tape) -> (GSpec, Vec<&'static str>) {
     let mut tags = vec![];
     let nterms = 2 + t.below(5);
     let terms: Vec<TermSpec> = (0..nterms as u32).map(|k| extern_term(k, false)).collect();
-    let mut spec = GSpec { lexer: Lexer::Extern { loc: LocTy::Usize }, terms, nts: vec![], declare_error: true };
+    let mut spec = GSpec { lexer: Lexer::Extern { loc: LocTy::Usize }, terms, nts: vec![], declare_error: true, cx_name: "cx".into(), lt_name: "cx".into() };
     let n_nts = 1 + t.below(6);
     let unit_nt = |name: String, public: bool| NtSpec {
         name,
@@ -1048,7 +1089,7 @@ pub fn gen_cfg(t: &mut Tape) -> (GSpec, Vec<&'static str>) {
 /// (parenthesised atom) and an optional wrapper start symbol.
 pub fn gen_prec(t: &mut Tape) -> GSpec {
     let terms: Vec<TermSpec> = (0..8u32).map(|k| extern_term(k, false)).collect();
-    let mut spec = GSpec { lexer: Lexer::Extern { loc: LocTy::Usize }, terms, nts: vec![], declare_error: true };
+    let mut spec = GSpec { lexer: Lexer::Extern { loc: LocTy::Usize }, terms, nts: vec![], declare_error: true, cx_name: "cx".into(), lt_name: "cx".into() };
     // N0 = wrapper (pub), N1 = E (annotated), N2 = T (atom with parens)
     let wrapper = t.chance(90);
     let e_idx = 1usize;
@@ -1149,4 +1190,220 @@ pub fn gen_prec(t: &mut Tape) -> GSpec {
     spec.nts.push(e);
     spec.nts.push(tnt);
     spec
+}
+
+// ------------------------------------------------- metamorphic variants
+
+/// C14: mark a random non-empty subset of the eligible (non-pub,
+/// non-recursive, not yet inlined) nonterminals / macro definitions `#[inline]`.
+pub fn inline_variant(spec: &GSpec, t: &mut Tape) -> Option<(GSpec, Vec<usize>)> {
+    let reach = reach_matrix(spec);
+    let eligible: Vec<usize> =
+        (0..spec.nts.len()).filter(|&i| !spec.nts[i].public && !spec.nts[i].inline && !reach[i][i]).collect();
+    // only nonterminals that are actually used somewhere
+    let used: Vec<usize> = eligible.into_iter().filter(|&i| (0..spec.nts.len()).any(|j| j != i && reach[j][i])).collect();
+    if used.is_empty() {
+        return None;
+    }
+    let mut chosen: Vec<usize> = used.iter().copied().filter(|_| t.chance(140)).collect();
+    if chosen.is_empty() {
+        chosen.push(used[t.below(used.len())]);
+    }
+    let mut s = spec.clone();
+    for &i in &chosen {
+        s.nts[i].inline = true;
+    }
+    Some((s, chosen))
+}
+
+const NT_POOL: &[&str] = &[
+    "__0", "__Symbol", "__StateMachine", "__state0", "__parse__N0", "__intern_token", "__ToTriple", "__TOKENS", "__action0",
+    "__sym0", "Token", "alloc", "core", "__lookahead", "__nt", "N01", "N0_", "__N0", "___N0", "__result", "__Nonterminal",
+    "__lalrpop_util", "__ACTION", "__GOTO", "__expected_tokens", "Nn", "__reduce0", "__pop_Variant0", "Variant0", "__Parser",
+];
+const BIND_POOL: &[&str] = &[
+    "__0", "__1", "__2", "__3", "__sym0", "__sym1", "__lookahead", "__lookbehind", "__tokens", "__result", "__nt", "__start",
+    "__end", "__temp0", "v", "e", "__v", "___0", "__start0", "__end0", "__symbols", "__states", "__state", "__token",
+];
+const CX_POOL: &[&str] = &["cx", "__tokens0", "__cx", "__parser", "__1000", "__tokens", "__lookahead", "__lookbehind", "__input0"];
+const LT_POOL: &[&str] = &["cx", "__a", "a", "ast", "__input", "__1"];
+
+/// C25: consistently rename nonterminals, macro parameters, bindings, the
+/// grammar parameter and its lifetime into an adversarial pool.
+pub fn rename_variant(spec: &GSpec, t: &mut Tape) -> (GSpec, Vec<String>) {
+    let mut s = spec.clone();
+    let mut new_names: Vec<String> = vec![];
+    let mut free: Vec<&str> = NT_POOL.to_vec();
+    for i in 0..s.nts.len() {
+        if !free.is_empty() && t.chance(200) {
+            let k = t.below(free.len());
+            s.nts[i].name = free.remove(k).to_string();
+            new_names.push(s.nts[i].name.clone());
+        }
+        // macro parameters: X -> PX0 / __p / __0x (must stay distinct from nonterminal names)
+        if !s.nts[i].params.is_empty() {
+            for (pi, p) in s.nts[i].params.iter_mut().enumerate() {
+                let keep_k = p.starts_with('K');
+                let base = *t.pick(&["__p", "__P", "Pp", "__sym", "__Sym"]);
+                *p = format!("{}{}{}", if keep_k { "K" } else { "" }, base, pi);
+                new_names.push(p.clone());
+            }
+        }
+    }
+    s.cx_name = t.pick(CX_POOL).to_string();
+    s.lt_name = t.pick(LT_POOL).to_string();
+    new_names.push(s.cx_name.clone());
+    new_names.push(format!("'{}", s.lt_name));
+    // bindings, per alternative (distinct within the alternative, never the grammar parameter)
+    let cx = s.cx_name.clone();
+    for nt in s.nts.iter_mut() {
+        for alt in nt.alts.iter_mut() {
+            let mut pool: Vec<&str> = BIND_POOL.iter().copied().filter(|b| *b != cx).collect();
+            let mut next = |t: &mut Tape, pool: &mut Vec<&str>, old: &str| -> String {
+                if !pool.is_empty() && t.chance(210) {
+                    let k = t.below(pool.len());
+                    pool.remove(k).to_string()
+                } else {
+                    old.to_string()
+                }
+            };
+            fn pat(p: &mut TupPat, t: &mut Tape, pool: &mut Vec<&str>, next: &mut dyn FnMut(&mut Tape, &mut Vec<&str>, &str) -> String, out: &mut Vec<String>) {
+                match p {
+                    TupPat::Name(n) => {
+                        *n = next(t, pool, n);
+                        out.push(n.clone());
+                    }
+                    TupPat::Tup(v) => v.iter_mut().for_each(|x| pat(x, t, pool, next, out)),
+                }
+            }
+            for sy in alt.syms.iter_mut() {
+                match &mut sy.bind {
+                    Bind::Name(n, _) => {
+                        *n = next(t, &mut pool, n);
+                        new_names.push(n.clone());
+                    }
+                    Bind::Tuple(p) => pat(p, t, &mut pool, &mut next, &mut new_names),
+                    _ => {}
+                }
+            }
+        }
+    }
+    (s, new_names)
+}
+
+const FEATURES: &[&str] = &["f1", "x-y", "abc", "z9"];
+
+fn gen_pred(t: &mut Tape, depth: usize) -> Pred {
+    let w_leaf = if depth >= 3 { 255 } else { 110 };
+    match t.weighted(&[w_leaf, 50, 45, 45]) {
+        1 => Pred::Not(Box::new(gen_pred(t, depth + 1))),
+        2 => {
+            let n = 1 + t.below(3);
+            Pred::All((0..n).map(|_| gen_pred(t, depth + 1)).collect())
+        }
+        3 => {
+            let n = 1 + t.below(3);
+            Pred::Any((0..n).map(|_| gen_pred(t, depth + 1)).collect())
+        }
+        _ => Pred::Feature(t.pick(FEATURES).to_string()),
+    }
+}
+
+/// C15: decorate a grammar with `#[cfg(..)]` on alternatives, nonterminals and
+/// extern conversions; returns the decorated grammar and a feature set.
+pub fn cfg_variant(spec: &GSpec, t: &mut Tape) -> (GSpec, std::collections::BTreeSet<String>) {
+    let mut s = spec.clone();
+    let n_nts = s.nts.len();
+    // 1. gate some existing alternatives (1-2 attributes)
+    for ni in 0..n_nts {
+        let n_alts = s.nts[ni].alts.len();
+        for ai in 0..n_alts {
+            if n_alts >= 2 && !s.nts[ni].alts[ai].syms.is_empty() && t.chance(50) {
+                let k = 1 + t.below(2);
+                for _ in 0..k {
+                    let p = gen_pred(t, 0);
+                    s.nts[ni].alts[ai].cfg.push(p);
+                }
+            }
+        }
+    }
+    // 2. extra gated alternatives: copy of an existing one with another leading terminal
+    for ni in 0..n_nts {
+        if s.nts[ni].params.is_empty() && !s.nts[ni].alts.is_empty() && t.chance(90) {
+            let src = t.below(s.nts[ni].alts.len());
+            let mut alt = s.nts[ni].alts[src].clone();
+            let lead = SymKind::T(t.below(s.terms.len()));
+            let bind = match alt.syms.first().map(|x| &x.bind) {
+                Some(Bind::Name(..)) | Some(Bind::Tuple(..)) | Some(Bind::Choose) => Bind::None,
+                _ => Bind::None,
+            };
+            // keep binding discipline: an unbound extra symbol is only neutral if something is selected/named,
+            // otherwise it becomes one more anonymous argument - both are fine for the model
+            alt.syms.insert(0, SymSpec { bind, kind: lead });
+            alt.cfg = vec![gen_pred(t, 0)];
+            alt.prec = None;
+            alt.assoc = None;
+            s.nts[ni].alts.push(alt);
+        }
+    }
+    // 3. an extra gated nonterminal, referenced from an alternative gated by the same predicate
+    if t.chance(120) {
+        let p = gen_pred(t, 0);
+        let idx = s.nts.len();
+        let term = SymKind::T(t.below(s.terms.len()));
+        s.nts.push(NtSpec {
+            name: format!("G{idx}"),
+            public: false,
+            inline: false,
+            ty: Some(Ty::Str),
+            alts: vec![AltSpec::new(vec![SymSpec::plain(term.clone()), SymSpec::plain(term)], Act::User { fallible: false, style: Style::Angle })],
+            cfg: vec![p.clone()],
+            params: vec![],
+        });
+        let host = t.below(n_nts.max(1));
+        if s.nts[host].params.is_empty() {
+            let lead = SymKind::T(t.below(s.terms.len()));
+            let mut alt = AltSpec::new(
+                vec![SymSpec::plain(lead), SymSpec::plain(SymKind::N(idx))],
+                match s.nts[host].ty {
+                    Some(Ty::Str) => Act::User { fallible: false, style: Style::Angle },
+                    Some(Ty::Unit) => Act::UnitUser,
+                    _ => Act::User { fallible: false, style: Style::Angle },
+                },
+            );
+            alt.cfg = vec![p];
+            if matches!(s.nts[host].ty, Some(Ty::Str) | Some(Ty::Unit)) {
+                s.nts[host].alts.push(alt);
+            }
+        }
+    }
+    // 4. a gated extern conversion: every alternative that mentions the terminal gets the same predicate
+    if matches!(s.lexer, Lexer::Extern { .. }) && s.terms.len() >= 3 && t.chance(110) {
+        let ti = s.terms.len() - 1;
+        let p = gen_pred(t, 0);
+        s.terms[ti].cfg = Some(p.clone());
+        fn mentions(k: &SymKind, ti: usize) -> bool {
+            match k {
+                SymKind::T(x) => *x == ti,
+                SymKind::Macro(_, a) => a.iter().any(|x| mentions(x, ti)),
+                SymKind::Rep(x, _) => mentions(x, ti),
+                SymKind::Group(items) => items.iter().any(|s| mentions(&s.kind, ti)),
+                _ => false,
+            }
+        }
+        for nt in s.nts.iter_mut() {
+            for alt in nt.alts.iter_mut() {
+                if alt.syms.iter().any(|sy| mentions(&sy.kind, ti)) {
+                    alt.cfg.push(p.clone());
+                }
+            }
+        }
+    }
+    let mut feats = std::collections::BTreeSet::new();
+    for f in FEATURES {
+        if t.chance(128) {
+            feats.insert(f.to_string());
+        }
+    }
+    (s, feats)
 }
